@@ -40,6 +40,22 @@ def run(tier, seed, args):
     wd = vlib.workdir("C15")
     exe = vlib.build_harness()
     deep = tier == "thorough"
+    # (A) design-level model of the commit protocol: holds for the protocol as built (and for a harmless reordering),
+    # is violated by the two protocol changes that the seeded changes C15-A/B implement (model self-test)
+    mc = []
+    for order, expect_ok in (("asbuilt", True), ("early", True), ("header_twice", False), ("finalize_in_drop", False)):
+        for nd, nx in ((0, 1), (2, 2), (3, 1)) if deep else ((2, 2),):
+            cfg = os.path.join(wd, f"crash_{order}_{nd}_{nx}.cfg")
+            vlib.write_cfg(cfg, spec="Spec", constants={"NData": nd, "NXml": nx, "Order": f'"{order}"'},
+                           invariants=["AcceptedOnlyIfComplete", "RejectedBeforeFinalize"])
+            r = vlib.tlc_mc("CrashSpec", cfg, os.path.join(wd, f"crash_{order}_{nd}_{nx}.out"), workers=2, timeout=300)
+            ok = r["violated"] is None
+            mc.append({"order": order, "NData": nd, "NXml": nx, "holds": ok, "states": r["distinct"]})
+            if ok != expect_ok:
+                raise vlib.ToolError(f"CrashSpec: protocol '{order}' expected {'to hold' if expect_ok else 'to be violated'} but TLC says otherwise")
+            v.add(states=r["distinct"], transitions=r["generated"])
+    v.cov["crash_model"] = mc
+    log(f"[C15] (A) CrashSpec: invariant holds for the protocol as built, violated for the two seeded protocol variants ({len(mc)} TLC runs)")
     ps = c15_programs(seed, tier)
     pp = os.path.join(wd, "progs.ndjson")
     with open(pp, "w") as f:
